@@ -878,11 +878,18 @@ func interleave(ids []*big.Int, sigs []string) string {
 
 // dkgLine builds a dkg op line for group size n with the given id class and arrival list.
 func (g *gen) dkgLine(n int, cl string, arrivals func(k int) []int) (string, bool) {
+	return g.dkgLineIds(n, cl, arrivals, nil)
+}
+
+func (g *gen) dkgLineIds(n int, cl string, arrivals func(k int) []int, idsOut *[]*big.Int) (string, bool) {
 	seeds := make([][]byte, n)
 	for i := range seeds {
 		seeds[i] = g.r.Bytes(1 + g.r.Intn(32))
 	}
 	ids := g.idSet(n, cl)
+	if idsOut != nil {
+		*idsOut = ids
+	}
 	gh := g.r.Bytes(32)
 	d, errS := runDkg(seeds, ids, common.BytesToHash(gh), nil)
 	if errS != "" {
@@ -1049,6 +1056,31 @@ func search(r *hx.Rng, thorough bool, hintLines []string) searchOut {
 	if thorough {
 		reps = 12
 	}
+	// directed: two members whose ids are congruent modulo the group order answer first
+	for _, n := range []int{min, max} {
+		var ids []*big.Int
+		line, ok := g.dkgLineIds(n, "collide", func(k int) []int {
+			a, b := -1, -1
+			for i := range ids {
+				for j := 0; j < i; j++ {
+					if new(big.Int).Mod(ids[i], order).Cmp(new(big.Int).Mod(ids[j], order)) == 0 {
+						a, b = j, i
+					}
+				}
+			}
+			arr := []int{a, b}
+			for i := 0; i < n && len(arr) < k; i++ {
+				if i != a && i != b {
+					arr = append(arr, i)
+				}
+			}
+			return arr
+		}, &ids)
+		if ok {
+			so.Dist["search.dkg ids=collide directed"]++
+			checkDkg(line, "collide")
+		}
+	}
 	for n := min; n <= max; n++ {
 		for t := 0; t < reps; t++ {
 			cl := []string{"hash", "hash", "small", "wrap", "zero", "collide"}[(t+n)%6]
@@ -1185,6 +1217,52 @@ func main() {
 	switch a["mode"] {
 	case "exec":
 		fmt.Println(hx.Guard(func() string { return execOp(a["op"]) }))
+		return
+	case "mkdkg":
+		// mkdkg ids=<hex,hex,..> arrival=<i,i,..> msg=<hex>: build a dkg op line with seeds 01,02,..
+		var ids []*big.Int
+		for _, t := range strings.Split(a["ids"], ",") {
+			x, ok := tokNat(t)
+			if !ok {
+				panic("bad id " + t)
+			}
+			ids = append(ids, x)
+		}
+		arr, _ := tokDecs(a["arrival"])
+		n := len(ids)
+		seeds := make([][]byte, n)
+		for i := range seeds {
+			seeds[i] = []byte{byte(i + 1)}
+		}
+		gh := make([]byte, 32)
+		d, errS := runDkg(seeds, ids, common.BytesToHash(gh), nil)
+		if errS != "" {
+			panic(errS)
+		}
+		msg, _ := hx.UnHex(a["msg"])
+		w := []string{"dkg", hx.Hex(msg), hx.Hex(gh), hx.Hex(hashPoint(msg)), strconv.Itoa(d.k), strconv.Itoa(n), strconv.Itoa(len(arr)), "-"}
+		if len(arr) > d.k {
+			js := make([]string, d.k)
+			for i := range js {
+				js[i] = "0"
+			}
+			w[7] = strings.Join(js, ",")
+		}
+		for _, sd := range seeds {
+			w = append(w, hx.Hex(sd))
+		}
+		for _, x := range ids {
+			w = append(w, natTok(x))
+		}
+		for i := 0; i < n; i++ {
+			for c := 0; c < d.k; c++ {
+				w = append(w, secTok(&d.coeffs[i][c]))
+			}
+		}
+		for _, x := range arr {
+			w = append(w, strconv.Itoa(x))
+		}
+		fmt.Println("LINE " + strings.Join(w, " "))
 		return
 	case "search":
 		var hints []string
